@@ -57,21 +57,28 @@ def probe (slots : Array (Option Entry)) (i h : Nat) (fuel pos coll : Nat) : Opt
                        else probe slots i h fuel ((pos + 1) % slots.size) (coll + 1)
     | none => none
 
-def insertEntry (t : Tbl) (i : Nat) (collect : Bool) : Option Tbl := do
-  let t ← if t.lfNum * cfg.maxDen > cfg.maxNum * t.lfDen then grow cfg t else some t
-  let h := hash i % 2^32
-  let (pos, coll) ← probe eqv t.slots i h (t.slots.size + 1) (h % t.slots.size) 0
-  let t := { t with insertCollisions := t.insertCollisions + coll }
-  match t.slots[pos]? with
-  | some none =>
-    some { t with slots := t.slots.setIfInBounds pos (some { hash := h, firstPos := i, ix := [] }),
-                  groupCount := t.groupCount + 1, lfNum := t.groupCount + 1, lfDen := t.slots.size }
-  | some (some e) =>
-    if collect then
-      let e' := if e.ix.isEmpty then { e with ix := [e.firstPos, i] } else { e with ix := e.ix ++ [i] }
-      some { t with slots := t.slots.setIfInBounds pos (some e') }
-    else some t
+def growIfNeeded (t : Tbl) : Option Tbl :=
+  if t.lfNum * cfg.maxDen > cfg.maxNum * t.lfDen then grow cfg t else some t
+
+def insertNoGrow (t : Tbl) (i : Nat) (collect : Bool) : Option Tbl :=
+  match probe eqv t.slots i (hash i % 2^32) (t.slots.size + 1) ((hash i % 2^32) % t.slots.size) 0 with
   | none => none
+  | some (pos, coll) =>
+    match t.slots[pos]? with
+    | some none =>
+      some { t with slots := t.slots.setIfInBounds pos (some { hash := hash i % 2^32, firstPos := i, ix := [] }),
+                    groupCount := t.groupCount + 1, lfNum := t.groupCount + 1, lfDen := t.slots.size,
+                    insertCollisions := t.insertCollisions + coll }
+    | some (some e) =>
+      if collect then
+        some { t with slots := t.slots.setIfInBounds pos
+                        (some (if e.ix.isEmpty then { e with ix := [e.firstPos, i] } else { e with ix := e.ix ++ [i] })),
+                      insertCollisions := t.insertCollisions + coll }
+      else some { t with insertCollisions := t.insertCollisions + coll }
+    | none => none
+
+def insertEntry (t : Tbl) (i : Nat) (collect : Bool) : Option Tbl :=
+  (growIfNeeded cfg t).bind fun t => insertNoGrow hash eqv t i collect
 
 def initialSizeExp (n : Nat) : Nat := max (if n / 4 = 0 then 0 else Nat.log2 (n / 4) + 1) 3
 
